@@ -7,6 +7,7 @@ import RdVerif.Model.Interval
 import RdVerif.Model.Fractions
 import RdVerif.Model.Units
 import RdVerif.Model.DriverInv
+import RdVerif.Model.Queries
 import RdVerif.Gen.Icrp107.Data
 
 namespace RdVerif.Driver
@@ -123,6 +124,26 @@ def handle (st : State) (req : List String) : State × String :=
     | none => (st, "bad-request")
   | "w" :: "F" :: rest => let r := DriverInv.handle DriverInv.floatCodec st.wF rest; ({ st with wF := r.1 }, r.2)
   | "w" :: "Q" :: rest => let r := DriverInv.handle DriverInv.ratCodec st.wQ rest; ({ st with wQ := r.1 }, r.2)
+  | ["hl", dsn, i, u] =>
+    match dsByName dsn, i.toNat?, decStr u with
+    | some ds, some i, some u =>
+      (st, match halfLifeIn ds.yearX (get2 ds.hl i ⟨none, 0, "", ""⟩) u with
+        | some none => "ok inf"
+        | some (some q) => "ok " ++ encRat q
+        | none => "err ValueError")
+    | _, _, _ => (st, "bad-request")
+  | ["bfq", dsn, i, nm] =>
+    match dsByName dsn, i.toNat?, decCodes nm with
+    | some ds, some i, some nm =>
+      let ls := get2 ds.links i []
+      (st, s!"ok {encRat (bfQuery ls nm)} {encCodes ((modeQuery ls nm).toList.map Char.toNat)}")
+    | _, _, _ => (st, "bad-request")
+  | ["linksof", dsn, i] =>
+    match dsByName dsn, i.toNat? with
+    | some ds, some i =>
+      (st, "ok " ++ " ".intercalate ((get2 ds.links i []).map (fun l =>
+        s!"{encCodes l.name}:{encRat l.bf}:{encCodes (l.mode.toList.map Char.toNat)}")))
+    | _, _ => (st, "bad-request")
   | "set_names" :: ns =>
     match ns.mapM decCodes with
     | some l => ({ st with names := l }, s!"ok {l.length}")
